@@ -86,6 +86,21 @@ def check_step(pre, post, step, replaced_table=None):
       if not isinstance(ov, (list, tuple)) or not any(x in gone for x in _members(typ, ov)):
         continue
       rest = [x for x in ov if x not in gone]
+      # ids the cell held that were ALREADY dangling before this step (not rows of the target in
+      # the pre-state: a supported dangling reference written by an earlier action).  The property
+      # speaks of the rows this step removes and of "the others" among the target's rows; the
+      # engine drops such an id too when the remove action names it again, which is allowed.
+      target_pre = pre["ids"].get(typ.split(":", 1)[1], set())
+      ghosts = {x for x in rest if isinstance(x, int) and not isinstance(x, bool) and x not in target_pre}
+      if ghosts and v is not None and list(v) != rest:
+        kept = list(v)
+        it = iter(rest)
+        is_subseq = all(any(y == x for y in it) for x in kept)
+        if is_subseq and all(x in kept for x in rest if x not in ghosts) and \
+            [x for x in kept if x not in ghosts] == [x for x in rest if x not in ghosts]:
+          continue
+      if ghosts and v is None and all(x in ghosts for x in rest):
+        continue
       if not rest:
         if v is not None:
           out.append(("C10.empty_is_none", {"step": step, "table": t, "column": cid, "row": r,
